@@ -151,3 +151,30 @@ pub fn large(n: usize, seed: u64, internal: u8) -> Logical {
         },
     }
 }
+
+/// Dense archive recipe: `n` distinct equal-length tiny tiles on (mostly) consecutive ids. Its directory
+/// is long but highly compressible, so with a codec the whole list stays in a *single* root directory of
+/// far more than 16384 entries; uncompressed every entry costs exactly 4 bytes (delta 1, run 1, len < 128,
+/// offset elided), which allows exact steering of the root size: 2 + 4n bytes for 128 <= n < 16384.
+pub fn dense(n: usize, seed: u64, internal: u8) -> Logical {
+    let pool: Vec<ContentSpec> = (0..n as u32).map(|i| ContentSpec { kind: 8, len: 3, seed: i + 1 }).collect();
+    let first = 5 + seed % 100;
+    let tiles: Vec<(u64, u16)> = Vec::new();
+    let mut l = large(0, seed, internal);
+    l.pool = pool;
+    l.tiles = tiles;
+    // pool selectors are u16 (monotone map): with n > 65536 contents not every content is addressable; keep n <= 60000
+    let n = n.min(60_000);
+    l.pool.truncate(n);
+    l.tiles = (0..n).map(|i| (first + i as u64, (((i as u64) << 16) / n as u64 + if i > 0 { 1 } else { 0 }).min(65535) as u16)).collect();
+    // make sure selector i maps to pool index i
+    for (i, t) in l.tiles.iter_mut().enumerate() {
+        let mut sel = ((i as u64) << 16).div_ceil(n as u64) as u16;
+        while super::pick(sel, n) < i {
+            sel += 1;
+        }
+        t.1 = sel;
+    }
+    l.meta = J::O(vec![("name".into(), J::S("dense".into()))]);
+    l
+}
